@@ -34,6 +34,7 @@ type inst struct {
 
 var insts []*inst
 var seen = map[string]bool{}
+var misnamed int
 
 // add registers one concrete representation of an abstract value (deduplicated on
 // Go type + rep family + display so that the same construction is not repeated)
@@ -53,6 +54,14 @@ func add(av *aval.V, rep string, v Value) *inst {
 		return nil
 	}
 	seen[k] = true
+	if av.T != "obj" {
+		// harness sanity: the construction recipe must have produced the value it is named
+		// after (judged from the representation's own fields); otherwise leave it out
+		if back, ok := aval.Of(v); !ok || back.String() != av.String() {
+			misnamed++
+			return nil
+		}
+	}
 	in := &inst{rep: rep, av: av, v: v}
 	insts = append(insts, in)
 	return in
@@ -562,6 +571,24 @@ func main() {
 		}
 		insts = keep
 	}
+	if max := 1000; len(insts) > max {
+		// thorough: keep the first representation of every abstract value, sample the rest
+		first := map[string]bool{}
+		var keep, rest []*inst
+		for _, in := range insts {
+			if k := in.av.String(); !first[k] {
+				first[k] = true
+				keep = append(keep, in)
+			} else {
+				rest = append(rest, in)
+			}
+		}
+		rnd.Shuffle(len(rest), func(i, j int) { rest[i], rest[j] = rest[j], rest[i] })
+		if n := max - len(keep); n > 0 && n < len(rest) {
+			rest = rest[:n]
+		}
+		insts = append(keep, rest...)
+	}
 	for i, in := range insts {
 		in.id = i + 1
 	}
@@ -631,5 +658,5 @@ func main() {
 			}
 		}
 	}
-	vh.Summary("instances", n, "pairs", npairs, "exceptions", nexc, "maps", nmaps, "events", tr.N)
+	vh.Summary("instances", n, "pairs", npairs, "exceptions", nexc, "maps", nmaps, "misnamed_dropped", misnamed, "events", tr.N)
 }
